@@ -14,6 +14,7 @@ RULE = ("one case = (method, direction, dense flag, mix of 1..3 terminal and 0..
         "(method,direction,dense,mix,continuation,seed)")
 ASSUMPTIONS = ["tangential terminal roots (|dg/dt| < 5% of scale) and runs whose node error makes root matching ambiguous are excluded",
                "continuations use no events or a different, later terminal event (re-arming the same event at its own root is not specified by the property)"]
+RULE += " Strata added in the fourth seeding round: Vectorised dense queries before the terminal run, after the stop and after the continuation; event objects surveyed with other attributes first."
 FLOORS = {"quick": {"terminal_landings": 50, "landings_backward": 15, "landings_with_substeps": 30, "continuations_checked": 45, "infinite_target_runs": 8,
                     "dense_checked_after_stop": 15, "second_terminal_stops": 5, "close_pair_cases": 25,
                     "landing_step_replay_steps": 60, "landings_far_from_time_origin": 8, "landings_on_a_recorded_step_end": 30, "terminal_runs_after_an_earlier_failure": 16, "continuation_step_replay_steps": 40, "array_query_before_terminal_run": 10, "array_queries_compared": 1500, "surveyed_with_other_attributes_first": 25},
